@@ -532,7 +532,8 @@ def decompress_destripe_cbin(
         )
 
         fid = open(output_file, "r+b")
-        if i_chunk == 0:
+        if first_s == 0:
+            # a worker that starts with the first batch writes it from its first sample
             fid.seek(offset)
         else:
             fid.seek(offset + ((first_s + SAMPLES_TAPER) * nc_out * nbytes))
